@@ -168,6 +168,11 @@ M("c04.toy.dsa.verify.modq", "C04", DSAPY, "v = (pow(g, u1, p) * pow(y, u2, p) %
 M("c04.toy.dsa.sign.r", "C04", DSAPY, "r = pow(g, k, p) % q  # r = (g**k mod p) mod q", "r = pow(g, k, q) % p", "K-pw|dsa.toy.sign")
 M("c04.twin.toy.ecdsa.verify", "C04", ECCPY, "return (point1 + point2).x % order == rs[0]", "v = (point2 + point1).x % order\n        return v == rs[0]", twin=True)
 
+OAEPPY = "lib/Crypto/Cipher/PKCS1_OAEP.py"
+M("c07.oaep.eme.order", "C07", OAEPPY, "        em = b'\\x00' + maskedSeed + maskedDB", "        em = b'\\x00' + maskedDB + maskedSeed", "K-pw|oaep.eme.bytes")
+M("c07.oaep.eme.dbmasklen", "C07", OAEPPY, "        dbMask = self._mgf(ros, k-hLen-1)\n        # Step 2f", "        dbMask = self._mgf(ros, k-hLen)\n        # Step 2f", "K-pw|oaep.eme.bytes")
+M("c07.oaep.dec.seedslice", "C07", OAEPPY, "        maskedSeed = em[1:hLen+1]", "        maskedSeed = em[:hLen]", "K-pw|oaep.eme.bytes")
+M("c07.oaep.dec.res", "C07", OAEPPY, "        return db[res:]", "        return db[res+1:]", "K-pw|oaep.eme.bytes")
 PSSPY = "lib/Crypto/Signature/pss.py"
 M("c04.emsa.pss.lmask.encode", "C04", PSSPY, "    maskedDB = bchr(bord(maskedDB[0]) & ~lmask) + maskedDB[1:]\n    # Step 12", "    maskedDB = bchr(bord(maskedDB[0]) & (~lmask >> 1)) + maskedDB[1:]\n    # Step 12", "K-pw|pss.emsa.bytes")
 M("c04.emsa.pss.mprime", "C04", PSSPY, "    m_prime = bchr(0)*8 + mhash.digest() + salt\n    # Step 6", "    m_prime = bchr(0)*8 + salt + mhash.digest()\n    # Step 6", "K-pw|pss.emsa.bytes")
